@@ -1580,8 +1580,8 @@ func run(c *fw.Ctx) {
 	useConfig("p012")
 	full := alphabet(c.Thorough())
 	c.Note("phase1", fmt.Sprintf("alphabet of %d operation classes, all histories to depth %d", len(full), d1))
-	// the first phase may use at most 65% of the time budget, the second phase the rest
-	phaseDeadline = time.Now().Add(time.Until(c.Deadline) * 65 / 100)
+	// the first phase may use at most 80% of the remaining time budget, the second phase the rest
+	phaseDeadline = time.Now().Add(time.Until(c.Deadline) * 80 / 100)
 	bfs(c, "full alphabet", full, d1, 1)
 	phaseDeadline = c.Deadline
 	if d2 > 0 {
@@ -1956,7 +1956,7 @@ func main() {
 			if tier == "thorough" {
 				return 17 * time.Minute
 			}
-			return 60 * time.Second
+			return 75 * time.Second
 		},
 	})
 }
